@@ -276,7 +276,7 @@ func NewWorld(dir string, in *Input) (*World, error) {
 	}
 	w.socks = socks
 	w.Inst = haproxy.CreateInstance(nullLogger{}, haproxy.InstanceOptions{
-		RootFSPrefix:    "/repo/rootfs",
+		RootFSPrefix:    repoRoot() + "/rootfs",
 		HAProxyCfgDir:   dir,
 		HAProxyMapsDir:  filepath.Join(dir, "maps"),
 		BackendShards:   in.Shards,
